@@ -7,6 +7,6 @@ EXTENDS Prune
 NeverCancelledMidSweep == ~(pc.active /\ pc.cancelled)
 NeverCrashedMidSweep == ~(res.kind = "crashed" /\ act.name = "PruneStep" /\ dirty)
 NeverHeaderPruned == disk.hdr = 0..disk.height \/ disk.height < 0
-NeverTimeFloorBinds == ~(MinAge /\ act.name = "DeliverL1" /\ res.kind = "started" /\ pc.end < disk.l1 - Retained)
+NeverTimeFloorBinds == ~(MinAge /\ act.name = "DeliverL1" /\ res.kind = "started" /\ pc.end < act.n - Retained)
 NeverL2PathPrunes == ~(act.name = "DeliverHead" /\ res.kind = "started")
 =============================================================================
